@@ -117,6 +117,33 @@ func TestC17(t *testing.T) {
 			run(im.name+"+"+other.name, []Req{mkReq(opOpenFile, "/" + im.name), cdReq(1, 2), mkReq(opOpenFile, "/" + other.name), cdReq(1, 2), mkReq(opOpenFile, "/nope"), cdReq(0, 1)})
 			os.Remove(filepath.Join(w.Root, other.name))
 		}
+		// the image is replaced under the same path by a dump with another raw sector size while the server
+		// (and even the connection) lives: the new open must look at the new content
+		if im.size == 0x200000 && im.sig != "none" {
+			for j, other := range imgs {
+				if other.size != 0x200000 || other.sector == im.sector || (!r.Thorough() && (i+j)%5 != 0) {
+					continue
+				}
+				repl := other
+				repl.name = im.name
+				swap := func() { mkCDImage(w.Root, repl, byte(j+1)) }
+				reqs := []Req{mkReq(opOpenFile, "/" + im.name), cdReq(1, 2), mkReq(opOpenFile, "/" + im.name), cdReq(1, 2), cdReq(16, 1), mkReq(opOpenFile, "/CLOSEFILE"), mkReq(opOpenFile, "/" + im.name), cdReq(2, 1)}
+				m := newModel(w.Root, false)
+				res := runSession(t, SrvOpts{Root: w.Root}, m, reqs, Delivery{Before: map[int]func(){2: swap}})
+				r.Transition(int64(len(res.Steps)))
+				r.Eval(1)
+				key := sprintf("replace %s by sector size %d %s", im.name, other.sector, other.sig)
+				r.State(key)
+				r.Nontrivial(key)
+				for _, st := range res.Steps {
+					r.Outcome(st.Class)
+				}
+				if res.Why != "" {
+					r.Violation("C17:replaced-image:"+res.WhySig, key+": "+res.Why, map[string]any{"image": im.name, "replaced_by": other, "requests": reqs, "steps": res.Steps})
+				}
+				mkCDImage(w.Root, im, byte(i+1))
+			}
+		}
 		os.Remove(filepath.Join(w.Root, im.name))
 		if r.TimeUp() {
 			break
